@@ -138,13 +138,29 @@ func doubleWalkDiff(ctx context.Context, changeFn ChangeFunc, a, b walkerFn, fil
 				if err != nil {
 					return err
 				}
+				var f1next *currentPath
 				if f1.stat.IsDir() && !f2copy.stat.IsDir() {
 					rmdir = f1.path + string(filepath.Separator)
+					// The directory is about to be replaced by a non-directory
+					// while the walker of the lower tree may still be inside it
+					// (it would then open a fifo, or walk through a symlink).
+					// Let it leave first: what it reports from there is ignored.
+					for c1 != nil {
+						f1next, err = nextPath(ctx, c1)
+						if err != nil {
+							return err
+						}
+						if f1next == nil {
+							c1 = nil
+						} else if !strings.HasPrefix(f1next.path, rmdir) {
+							break
+						}
+					}
 				} else if rmdir != "" {
 					rmdir = ""
 				}
 				f = f2.stat
-				f1 = nil
+				f1 = f1next
 				f2 = nil
 				if same {
 					continue loop0
